@@ -244,7 +244,10 @@ ATOMS = ["string", "number", "boolean", "object", "bigint", "symbol", "null", "u
          "'lit'", "`tpl`", "1", "1n", "true", "false", "() => void", "new () => Date", "string[]", "Array<number>", "[string, number]",
          "readonly string[]", "{ a: 1 }", "{ (): void }", "{ new (): Date }", "{}", "Date", "Map<string, number>", "Set<string>", "WeakMap<object, string>",
          "WeakSet<object>", "Promise<string>", "RegExp", "Error", "Function", "Object", "Foo", "Record<string, number>", "Partial<{ a: 1 }>",
-         "Readonly<{ a: 1 }>", "Uppercase<'a'>", "Parameters<typeof fn1>", "InstanceType<typeof Date>"]
+         "Readonly<{ a: 1 }>", "Uppercase<'a'>", "Parameters<typeof fn1>", "InstanceType<typeof Date>",
+         "Lowercase<'A'>", "Capitalize<'a'>", "Uncapitalize<'A'>", "ConstructorParameters<typeof Foo>", "Required<{ a?: 1 }>", "Pick<{ a: 1 }, 'a'>",
+         "Omit<{ a: 1; b: 2 }, 'a'>", "OmitThisParameter<() => void>", "Exclude<'a' | 1, 1>", "Extract<'a' | 1, string>", "NonNullable<string | null>",
+         "Array<string>[]", "Set<Date>", "(() => void)[]", "[...string[]]", "Function[]", "-1", "false | null"]
 
 
 class ExprGen:
@@ -314,6 +317,15 @@ def c16_case(r, i):
     ty = tg.encode(props)
     scope = r.wpick(SCOPES)
     tg.used["scope:%s" % scope] += 1
+    if r.chance(0.06):
+        # a long (but finite) chain of aliases in front of the type: well below / well above the nesting limit of the resolver
+        L = r.pick([5, 20, 40, 50, 90])
+        tg.used["alias-chain:%d" % L] += 1
+        names = [tg.fresh("Z") for _ in range(L)]
+        tg.decls_before.append("type %s = %s;" % (names[0], ty))
+        for a_, b_ in zip(names[1:], names):
+            tg.decls_before.append("type %s = %s;" % (a_, b_))
+        ty = names[-1]
     call = "const C%d = defineComponent((props: %s) => {});" % (i, ty)
     # more calls in the same module: the same type again, or another map encoded with the same declarations in scope
     for j in range(r.wpick([(0, 6), (1, 3), (2, 1)])):
